@@ -28,7 +28,7 @@ def names():
     out.append(("c03_pown_skip_01_sk", 2, 0, (0, 1), 4))
     return out
 
-QUICK = {"c03_p_final_01_fi", "c03_p_skip_02_sk", "c03_p_sfallback_01_sk"}
+QUICK = {"c03_p_final_01_fi", "c03_p_final_01_zz", "c03_p_skip_02_sk", "c03_p_sfallback_01_sk"}
 # kinds whose step harness fits the caps (measured): final, skip, skip-fallback.  notar / notar-fallback steps
 # (count_notar_stake with its safe-to-notar evaluation) exceed 500 s of symbolic execution and are not registered.
 REGISTERED_KINDS = {2, 3, 4} | ({0, 1} if os.environ.get("VERIF_EXPERIMENTAL") else set())
